@@ -17,7 +17,7 @@ ASSUMPTIONS = ["an upload error reply makes the library raise by design; the rai
                "small generation batches (the statement's quantifier); the production batch (812) is used in a few thorough histories",
                "histories are sampled"]
 REQUIRED = ["histories", "checkpoints", "uploads_seen", "keys_offered", "keys_confirmed", "unconfirmed_uploads", "reoffers_seen",
-            "keys_consumed", "replays", "restarts", "signatures_verified", "error_replies", "overlap_cases", "other_requests_during_upload", "signed_prekey_checks", "stray_iq_during_upload", "login_with_pending_keys_checked", "reduced_success_logins"]
+            "keys_consumed", "replays", "restarts", "signatures_verified", "error_replies", "overlap_cases", "other_requests_during_upload", "signed_prekey_checks", "boundary_histories", "stray_iq_during_upload", "login_with_pending_keys_checked", "reduced_success_logins"]
 TIMEOUT = {"quick": 600, "thorough": 7200}
 
 EVENTS = ["login", "ask-keys", "ask-keys-overlap", "other-requests-during-upload", "ask-keys-lost-reply", "ask-keys-error", "disconnect", "restart", "peer-first-message", "replay-first-message",
@@ -147,7 +147,7 @@ def checkpoint(acc, W, A, model, w, where):
     return ok
 
 
-def one_history(acc, seed, tag, batch=None):
+def one_history(acc, seed, tag, batch=None, forced_events=None):
     from vf import world
     from yowsup.layers.protocol_messages.protocolentities import TextMessageProtocolEntity
     r = gen.rng(seed, ID, tag)
@@ -174,7 +174,9 @@ def one_history(acc, seed, tag, batch=None):
         events[0] = "login-lost-reply"
         if r.random() < 0.6:
             events.insert(1, "restart")
-    w = {"tag": tag, "batch": batch, "events": events}
+    if forced_events:
+        events = list(forced_events)
+    w = {"tag": tag, "batch": batch, "events": events, "forced": bool(forced_events)}
     model = Model()
     state = {"pkmsg": None, "peer_ready": False, "markers": 0, "delivered_before": 0}
     ok = True
@@ -270,6 +272,20 @@ def one_history(acc, seed, tag, batch=None):
                 if mode == "lose-last":
                     W.server_close(A)
                     run_actions([])
+            elif ev == "ask-keys-twice-lost":
+                # two key requests in a row whose uploads are never confirmed: two batches are pending at the next login
+                if not c.ready():
+                    continue
+                W.server.delay_upload_reply.add(A)
+                for _ in range(2):
+                    W.server.ask_for_keys(A, 0)
+                    run_actions([])
+                W.server.delay_upload_reply.discard(A)
+                W.server.delayed_results.pop(A, None)
+                acc.count("unconfirmed_uploads", 2)
+                nontriv = True
+                W.server_close(A)
+                run_actions([])
             elif ev == "other-requests-during-upload":
                 # while an upload is unanswered the application issues other requests (pings) that the server answers at once:
                 # their results are not the upload's confirmation, whatever ids they carry
@@ -417,12 +433,24 @@ def one_history(acc, seed, tag, batch=None):
 def shards(tier, seed, nworkers):
     q = tier == "quick"
     nsh = 6 if q else nworkers
-    return [{"kind": "histories", "shard": i, "n": (600 if q else 30000) // nsh, "big": (not q) and i < 3} for i in range(nsh)]
+    specs = [{"kind": "histories", "shard": i, "n": (600 if q else 30000) // nsh, "big": (not q) and i < 3} for i in range(nsh)]
+    # uploads of exactly 255 / 256 / 257 keys (where the list header of the wire encoding changes): the very first upload with
+    # such a batch size, and two unconfirmed batches of half that size offered together at the next login
+    for b, ev in ((256, ["login", "ask-keys", "restart", "login"]), (128, ["login", "ask-keys-twice-lost", "login", "ask-keys"])) + \
+                 (() if q else ((255, ["login", "ask-keys"]), (257, ["login", "ask-keys"]), (64, ["login", "ask-keys-twice-lost", "login", "ask-keys-twice-lost", "login"]))):
+        specs.append({"kind": "boundary", "shard": 900 + b, "batch": b, "events": ev})
+    return specs
 
 
 def run(spec, acc):
     from vf import env
     env.shim_thirdparty()
+    if spec["kind"] == "boundary":
+        acc.count("boundary_histories")
+        w = one_history(acc, spec["seed"], "hb/%d" % spec["batch"], batch=spec["batch"], forced_events=spec["events"])
+        if w:
+            acc.sample(w)
+        return
     for i in range(spec["n"]):
         tag = "h/%d/%d" % (spec["shard"], i)
         w = one_history(acc, spec["seed"], tag, batch=812 if (spec.get("big") and i == 0) else None)
@@ -433,4 +461,5 @@ def run(spec, acc):
 def replay(spec, acc):
     from vf import env
     env.shim_thirdparty()
-    one_history(acc, spec["seed"], spec["witness"]["tag"], batch=spec["witness"].get("batch"))
+    wt = spec["witness"]
+    one_history(acc, spec["seed"], wt["tag"], batch=wt.get("batch"), forced_events=wt["events"] if wt.get("forced") else None)
